@@ -6,6 +6,7 @@ import re, os
 STRICT = os.environ.get("VERIF_STRICT") == "1"
 
 COMMON_TB = [
+    "comparisons are projected onto what the property text fixes (DESIGN 0.7: unnamed error kinds, buffer contents after a failure, scratch use, call structure are not compared); where a clause is decided by a harness oracle instead of agreement with the model, that oracle is trusted; VERIF_STRICT=1 restores the answer-by-answer comparison and passes on the unchanged tree",
     "Lean 4.33.0 kernel (leanchecker re-check in thorough runs); axioms allowed: propext, Classical.choice, Quot.sound",
     "hand-written Lean model of the Rust source (lean/Postcard/Model), tied to /repo only by this run's differential correspondence (harness/ vs pcmodel)",
     "the Rust harness (harness/src; built with overflow-checks and debug-assertions, `poison` calls before every op, buffers at rotating alignments), the alternate-configuration harness (harness_alloc: alloc + heapless, no use-std) where the property has an alt_config, the s-expression codecs on both sides, this driver",
